@@ -2057,6 +2057,11 @@ impl Scenario for ExitContract {
                     }
                 }
                 input = st.bytes();
+                // 1 in 4: on top of the errors in the data, expectations about the whole run that fail at its end
+                // (two more messages behind the data errors: caps and code filters apply to all of them together)
+                if rng.chance(1, 4) {
+                    checks_toml = Some("cdps = 100000\ntriggers_pht = 100000\n".to_string());
+                }
             }
             4 => {
                 class = "fatal-midstream";
@@ -3047,9 +3052,13 @@ pub struct Isolate;
 /// A fault confined to one link that keeps link id, FEE ID and framing consistent.
 /// Size- and group-preserving edit of a header field that is judged against what the link saw first
 /// (version) or against a constant.
-fn rdh_identity_edit(r: &mut itsgen::rdh::Rdh, rng: &mut Rng) {
+/// `not_first`: the packet is not the first of its link (so never the first of the stream, whatever the merge):
+/// a system ID no detector has is then one of the values - on the first packet of a stream it is a documented
+/// refusal of the whole input, anywhere else an RDH finding of that link.
+fn rdh_identity_edit(r: &mut itsgen::rdh::Rdh, rng: &mut Rng, not_first: bool) {
     match rng.below(7) {
         0 | 1 => r.version = *rng.pick(&[6u8, 7, 5, 8]),
+        2 if not_first => r.system_id = *rng.pick(&[0x20u8, 0x21, 0x03, 0x06, 0x4D, 0x00, 0x63, 0xFE]),
         2 => r.system_id = *rng.pick(&[0x20u8, 0x21, 0x03, 0x06]),
         3 => r.priority ^= 1,
         4 => r.detector_field ^= 1 << rng.below(32),
@@ -3093,7 +3102,7 @@ fn link_fault(st: &mut Stream, li: usize, rng: &mut Rng) -> &'static str {
             // fields every link learns or judges on its own: the first packet of the link (which may be
             // the first of the stream) in half of the cases
             let p = if rng.chance(1, 2) { 0 } else { p };
-            rdh_identity_edit(&mut st.links[li].packets[p].rdh, rng);
+            rdh_identity_edit(&mut st.links[li].packets[p].rdh, rng, p > 0);
             "rdh_identity_field"
         }
         _ => {
@@ -3332,7 +3341,9 @@ impl Scenario for Isolate {
             let link_shared = st.links.iter().filter(|l| l.link_id == st.links[li].link_id).count() > 1;
             let f = match rng.below(3) {
                 _ if force_stave_filter => Filter::Stave(st.links[li].fee_id),
-                0 if !link_shared => Filter::Link(st.links[li].link_id),
+                // (a link number shared by several FEE IDs, stave mode: the link filter selects them all, each
+                // still has its own validator)
+                0 if !link_shared || stave => Filter::Link(st.links[li].link_id),
                 1 => Filter::Fee(st.links[li].fee_id),
                 _ => Filter::Stave(st.links[li].fee_id),
             };
@@ -3362,7 +3373,7 @@ impl Scenario for Isolate {
                     1 if !pk.words.is_empty() => {
                         pk.words[wi].word[9] = *rng.pick(&[0x00u8, 0x29, 0xE0, 0xE4, 0xE8, 0xF0, 0x9A]);
                     }
-                    _ => rdh_identity_edit(&mut pk.rdh, &mut rng),
+                    _ => rdh_identity_edit(&mut pk.rdh, &mut rng, p > 0),
                 }
                 let ga: u16 = if stave { st3.links[a].fee_id } else { st3.links[a].link_id as u16 };
                 runs.push((IsoRole::CorruptedOther(ga), mk(st3.bytes(), &[], &mut rng)));
